@@ -911,6 +911,10 @@ class Multiplexer(utils.EventEmitter):
                 # TODO: error out
                 logger.warning(f'invalid DLCI: {pn.dlci}')
             else:
+                if pn.dlci in self.dlcs:
+                    # Parameters of an open DLC cannot be renegotiated
+                    logger.warning(f'PN for open DLCI {pn.dlci} ignored')
+                    return
                 if self.acceptor:
                     channel_number = pn.dlci >> 1
                     if dlc_params := self.acceptor(channel_number):
